@@ -14,13 +14,13 @@ func init() {
 		ID:    "C18",
 		Level: "exploration",
 		Rule: "cases = (instant, offset, delay) triples: instants uniform over 1970..2036-02-07, within 2 us of every kind of 64 s boundary of the 24-bit field, " +
-			"within 2 ns of whole seconds, in the last 70 s of the NTP era; offsets uniform in (-2^31 s, 2^31 s), near whole seconds, 0 and the extremes; " +
+			"within 2 ns of whole seconds, in the last 70 s of the NTP era (with receive instants that cross the era end); offsets uniform in (-2^31 s, 2^31 s), near whole seconds, 0 and the extremes; " +
 			"delays 0, < 10 us, within 10 us below 64 s - 2^-18 s, uniform; judged with integer nanosecond arithmetic (no float, no wall clock); " +
 			"non-trivial = every triple; distinct = (instant class, offset class, delay class, fraction-carry class)",
 		Floor:     100,
 		Technique: "runtime monitor: integer-arithmetic reference bounds on CaptureTime, EstimatedCaptureClockOffsetDuration and Estimate over boundary-concentrated instants",
 		Assumptions: []string{
-			"both the send instant and the receive instant (send + delay) lie before the NTP era end; the property's range is read as applying to every instant handed to the library",
+			"the send instant lies before the NTP era end; the receive instant (send + delay) may lie up to 64 s after it (a third of the cases use the last instants of the era freely)",
 			"1 ns of conversion slack is allowed on top of the 2^-18 s field resolution",
 		},
 		Strata: []fw.Stratum{
@@ -195,7 +195,12 @@ func c18Estimate(c *fw.Ctx, _ int) {
 		default:
 			delay, dcl = int64(r.U64()%uint64(maxDelay)), "uniform"
 		}
-		ns, icl := c18Instant(r, delay)
+		// the send instant lies before the era end; the receive instant (send + delay) may lie up to 64 s after it
+		margin := delay
+		if r.Chance(1, 3) {
+			margin = 0
+		}
+		ns, icl := c18Instant(r, margin)
 		send := c18Time(r, ns)
 		ns = send.UnixNano()
 		recv := c18Time(r, ns+delay)
@@ -235,10 +240,14 @@ func c18Estimate(c *fw.Ctx, _ int) {
 			return
 		}
 		crossed := (ns/64e9 != (ns+delay)/64e9)
-		c.Shapef("%s|%s|crossed%v|carry%v", icl, dcl, crossed, ns%1e9+delay%1e9 >= 1e9)
 		if crossed {
 			c.Count("estimates_across_a_64s_wrap", 1)
 		}
+		if ns+delay >= eraEndUnix*1e9 {
+			c.Count("estimates_with_receive_instant_after_the_era_end", 1)
+			icl += "|recv-after-era-end"
+		}
+		c.Shapef("%s|%s|crossed%v|carry%v", icl, dcl, crossed, ns%1e9+delay%1e9 >= 1e9)
 		if k == 0 && c.WantSample() {
 			c.Sample(map[string]any{"send_ns": ns, "delay_ns": delay, "estimate_ns": est.UnixNano(), "field": ts & 0xFFFFFF})
 		}
